@@ -18,8 +18,8 @@ META = {
         'surface temperature + integral of the gradients; Trock = min(T(depth), Tmax) with the depth reduced exactly when needed; the '
         'code-shaped walk of Reservoir.Calculate (pre-filled interface list, next(), max(), cumsum) computes that function for 1..4 '
         'segments, and the magnitude heuristics of read_parameters always yield well-formed layers, so the statement holds for every '
-        'accepted input WITH a reservoir depth in the file (without it the pinned code walks 3 m instead of the default 3 km: '
-        'C05_bht_default_depth_refuted, known finding); every analytical history starts at Trock; the redrilling step keeps every '
+        'accepted input, with or without a reservoir depth in the file (C05_bht_meets_definition; before fix a8610e4 the 3 km default was '
+        'walked as 3 m: C05_bht_default_depth_pinned_refuted, the corpus seed 01_depth_omitted is the regression witness); every analytical history starts at Trock; the redrilling step keeps every '
         'production temperature >= (1-maxdrawdown)*P[0] when P[0] >= 0 (refuted for P[0] < 0, known finding), preserves lengths, repeats '
         'the first cycle (element j = P[j mod index]) and restarts it at every reported redrilling that falls inside the series (the '
         'reported count includes one at index = series length when the cycle divides it: C05_redrill_count_refuted, known finding); '
@@ -44,7 +44,7 @@ META = {
                      'TDP/SF/MPF/LHSReservoir.Calculate and WellBores.Calculate by correspondence evaluated in the kernel '
                      '(tools/props/C05.py, tools/lib: unverified Python)'],
     'modelled': ['Reservoir.read_parameters magnitude heuristics (gradient > 1 -> /1000, < 1e-6 -> 1e-6, thickness < 100 -> x1000, bottom '
-                 'thickness 100000, depth x1000 only when provided)', 'Reservoir.Calculate layer walk and maxdepth cap',
+                 'thickness 100000, depth x1000, default depth included since fix a8610e4)', 'Reservoir.Calculate layer walk and maxdepth cap',
                  'TDPReservoir/SFReservoir.Calculate, affine part of MPF/LHSReservoir.Calculate', 'np.linspace, np.argmax, np.tile, slicing',
                  'math.erf, math.sqrt (Section variables with monotonicity/range hypotheses, sampled on every run)',
                  'mpmath.invertlaplace, CoolProp, RameyCalc (values read from the run)'],
@@ -359,9 +359,8 @@ def part_runs(ctx, inputs):
         Trock = F(S.v('reserv', 'Trock'))
         # --- bottom-hole temperature
         flat = bht_flat(S, ip)
-        # Economics.Calculate turns depths > 500 (m) back into km; an omitted depth is never converted at all (value 3.0,
-        # label km, walked as 3 m: the label is the defect, the value is what was used)
-        depth = F(S.v('reserv', 'depth')) * (1000 if S.p('reserv', 'depth')['cur'].startswith('kilo') and 'Reservoir Depth' in ip else 1)
+        # Economics.Calculate turns depths > 500 (m) back into km: the unit label says which
+        depth = F(S.v('reserv', 'depth')) * (1000 if S.p('reserv', 'depth')['cur'].startswith('kilo') else 1)
         if flat is not None:
             got = [Trock, depth] + [F(x) for x in S.v('reserv', 'gradient')] + [F(x) for x in S.v('reserv', 'layerthickness')]
             if flat[1] < flat[2]:                   # Tsurf < Tmax: the model's domain (the pinned code raises otherwise)
@@ -431,7 +430,7 @@ def part_runs(ctx, inputs):
         key = f'bht:nseg={int(spec[i][0][0])}' if spec[i][3] else K_DEPTH
         ctx.violate('property', key, f'{spec[i][2]["name"]}: bottom-hole temperature {float(spec[i][1][1][0])!r} is not surface temperature + '
                     'integral of the segment gradients down to the (Tmax-capped) reservoir depth' +
-                    ('' if spec[i][3] else ' (no Reservoir Depth in the input: the 3 km default is used as 3 m)'),
+                    ('' if spec[i][3] else ' (no Reservoir Depth in the input: the 3 km default must be walked as 3000 m, regression of fix a8610e4)'),
                     inp=spec[i][2], observed=float(spec[i][1][1][0]), expected='run_bht_spec (replay)')
     ctx.count('bht-run', evaluations=len(bht) + len(spec))
     # model of the drawdown pipeline (models 3,4) vs the run
